@@ -356,7 +356,12 @@ pub fn build(spec: &CtSpec) -> Workload {
         let marked = mask & (1 << (k % 32)) != 0;
         k += 1;
         if marked {
-            let sk = gen::secret_key(&mut p);
+            // one marked output in five goes to the receiver of the previous marked one (same blinding key)
+            let prev: Option<SecretKey> = receivers.iter().rev().flatten().next().copied();
+            let sk = match prev {
+                Some(k) if p.chance(1, 5) => k,
+                _ => gen::secret_key(&mut p),
+            };
             let pk = PublicKey::from_secret_key(secp, &sk);
             output.push(TxOut { asset: Asset::Explicit(asset), value: Value::Explicit(value), nonce: Nonce::Confidential(pk), script_pubkey: blindable_script(&mut p), witness: TxOutWitness::default() });
             receivers.push(Some(sk));
